@@ -13,6 +13,7 @@ import (
 	"time"
 
 	spb "github.com/openconfig/gribi/v1/proto/service"
+	"github.com/openconfig/gribigo/aft"
 	"github.com/openconfig/gribigo/constants"
 	"github.com/openconfig/gribigo/rib"
 	"github.com/openconfig/ygot/ygot"
@@ -30,6 +31,9 @@ type Spec struct {
 	Flush []string `json:"flush"`
 	At    int      `json:"at"`
 	Op    *gen.Op  `json:"op"`
+	// Resolved: a resolved-entry hook (the other public hook of the RIB, handed a copy of all
+	// instances for every top-level entry change) is registered too.
+	Resolved bool `json:"resolved,omitempty"`
 }
 
 // Result of a run.
@@ -100,7 +104,12 @@ func Run(pre hgen.History, in Spec, observer rib.RIBHookFn) *Result {
 			runtime.Gosched()
 		}
 	}
-	r := l1.NewRIB(false, l1.Opts{Setup: func(r *rib.RIB) { r.SetPostChangeHook(hook) }})
+	r := l1.NewRIB(false, l1.Opts{Setup: func(r *rib.RIB) {
+		r.SetPostChangeHook(hook)
+		if in.Resolved {
+			r.SetResolvedEntryHook(func(map[string]*aft.RIB, constants.OpType, string, constants.AFT, any, ...rib.ResolvedDetails) {})
+		}
+	}})
 	res.R = r
 	m := model.New("DEFAULT", hgen.NIs[1:], false)
 	for _, st := range pre.Steps {
